@@ -40,6 +40,19 @@ def _fmt_items(fmt: str) -> int:
     return n
 
 
+def _emit_ops(st: ast.AST) -> List[Tuple[ast.AST, ast.AST]]:
+    """the pieces a statement appends to the frame being assembled, whatever the accumulator is: buf.write(v) on a stream,
+    parts.append(v) on a list that is joined at the end, out += v on a bytes / bytearray local  ->  [(node, v)]"""
+    out: List[Tuple[ast.AST, ast.AST]] = []
+    if isinstance(st, ast.AugAssign) and isinstance(st.op, ast.Add) and isinstance(st.target, ast.Name):
+        out.append((st, st.value))
+    for c in walk_no_nested(st):
+        if isinstance(c, ast.Call) and isinstance(c.func, ast.Attribute) and c.func.attr in ('write', 'append') and len(c.args) == 1 and not c.keywords and \
+                isinstance(c.func.value, ast.Name):
+            out.append((c, c.args[0]))
+    return out
+
+
 def run(ch: Checker) -> None:
     prog = ch.prog
     ce = ConstEval(prog)
@@ -328,9 +341,8 @@ def run(ch: Checker) -> None:
         # last decision on self.masked that guards the payload part: use the last occurrence
         writes = []
         for idx, st in p.stmts():
-            for c in walk_no_nested(st):
-                if isinstance(c, ast.Call) and isinstance(c.func, ast.Attribute) and c.func.attr == 'write' and c.args:
-                    writes.append((idx, c, sym.value(c.args[0], idx)))
+            for c, arg in _emit_ops(st):
+                writes.append((idx, c, sym.value(arg, idx)))
         key_writes = [(i, c, v) for i, c, v in writes if _is_key_expr(v)]
         masked_payload = [(i, c, v) for i, c, v in writes if isinstance(v, ast.Call) and isinstance(v.func, ast.Attribute) and v.func.attr == 'apply_mask']
         plain_payload = [(i, c, v) for i, c, v in writes if norm(v) == 'self.data']
@@ -465,9 +477,9 @@ def run(ch: Checker) -> None:
         sym = Sym(p)
         ext = key = data = None
         for idx, st in p.stmts():
-            for c in walk_no_nested(st):
-                if isinstance(c, ast.Call) and isinstance(c.func, ast.Attribute) and c.func.attr == 'write' and c.args:
-                    v = sym.value(c.args[0], idx)
+            for c, arg_ in _emit_ops(st):
+                if True:
+                    v = sym.value(arg_, idx)
                     if isinstance(v, ast.Call) and attr_chain(v.func) == 'struct.pack' and v.args and isinstance(v.args[0], ast.Constant) and str(v.args[0].value).lstrip('!><=') in ('H', 'Q') and len(v.args) == 2:
                         ext = idx if ext is None else ext
                     elif _is_key_expr(v):
